@@ -295,12 +295,12 @@ pub fn udp_relay_response(target: SocketAddr, data: &[u8]) -> Vec<u8> {
     let mut content = vec![0; 3];
     match target.ip() {
         IpAddr::V4(ip) => {
-            content.extend(ip.octets());
             content.extend([magics::ATYP_IPV4]);
+            content.extend(ip.octets());
         }
         IpAddr::V6(ip) => {
-            content.extend(ip.octets());
             content.extend([magics::ATYP_IPV6]);
+            content.extend(ip.octets());
         }
     }
     content.extend(&target.port().to_be_bytes());
